@@ -567,3 +567,183 @@ func TestC13WebSocketCancel(t *testing.T) {
 		col.Case(true, hx.JSON(desc), func() any { return desc })
 	})
 }
+
+// TestC13RouterInboundClose concentrates on one corner of the composition space:
+// a router (bare or wrapped) whose session has an open subscription, a companion
+// session flooding matching events, and the session ending by inbound-channel
+// close while the surrounding context stays alive.
+func TestC13RouterInboundClose(t *testing.T) {
+	col := ev.For("C13").SetRule(c13Rule)
+	rapid.Check(t, func(t *rapid.T) {
+		router := mocrelay.NewRouterHandler(rapid.IntRange(1, 4).Draw(t, "buflen"))
+		var h mocrelay.Handler = router
+		wrap := rapid.SampledFrom([]string{"bare", "bare", "logging", "sendunique"}).Draw(t, "wrap")
+		switch wrap {
+		case "logging":
+			h = mocrelay.Middleware(mocrelay.NewLoggingMiddleware(slog.New(slog.NewTextHandler(io.Discard, nil))))(h)
+		case "sendunique":
+			h = mocrelay.Middleware(mocrelay.NewSendEventUniqueFilterMiddleware(4))(h)
+		}
+		nsub := rapid.IntRange(1, 3).Draw(t, "subs")
+		desc := map[string]any{"composition": wrap + " router", "subscriptions": nsub, "ending": "close-draining with a companion publisher", "parent_context": "alive"}
+		authors := gen.Pubkeys(1)
+		time.Sleep(time.Millisecond)
+		base, _ := mocrelayGoroutines()
+		parent, cancelParent := context.WithCancel(context.Background())
+		defer cancelParent()
+		recv := make(chan mocrelay.ClientMsg)
+		send := make(chan mocrelay.ServerMsg)
+		ret := make(chan error, 1)
+		go func() { ret <- h.ServeNostr(parent, send, recv) }()
+		stopRead := make(chan struct{})
+		readerDone := make(chan struct{})
+		go func() {
+			defer close(readerDone)
+			for {
+				select {
+				case <-send:
+				case <-stopRead:
+					return
+				}
+			}
+		}()
+		for i := 0; i < nsub; i++ {
+			recv <- &mocrelay.ClientReqMsg{SubscriptionID: fmt.Sprint("s", i), ReqFilters: []*mocrelay.ReqFilter{{}}}
+		}
+		// companion publisher
+		compCtx, compCancel := context.WithCancel(context.Background())
+		crecv := make(chan mocrelay.ClientMsg)
+		csend := make(chan mocrelay.ServerMsg)
+		cret := make(chan error, 1)
+		go func() { cret <- h.ServeNostr(compCtx, csend, crecv) }()
+		compDone := make(chan struct{})
+		go func() {
+			defer close(compDone)
+			for i := 0; ; i++ {
+				e := &mocrelay.Event{Pubkey: authors[0], Kind: 1, CreatedAt: 1, Tags: []mocrelay.Tag{}, Content: fmt.Sprint("flood", i)}
+				gen.Seal(e)
+				select {
+				case crecv <- &mocrelay.ClientEventMsg{Event: e}:
+				case <-csend:
+				case <-compCtx.Done():
+					<-cret
+					return
+				}
+			}
+		}()
+		time.Sleep(time.Duration(rapid.IntRange(200, 2000).Draw(t, "flood_us")) * time.Microsecond)
+		close(recv)
+		select {
+		case <-ret:
+		case <-time.After(5 * time.Second):
+			hx.Fail(t, ev.Failure{Property: "C13", Signature: "serve-does-not-return", Clause: "when the inbound channel is closed while output is being drained, serving returns", Case: desc, Observed: "not returned after 5 s"})
+		}
+		close(stopRead) // the peer stops reading once the session is over
+		<-readerDone
+		compCancel()
+		<-compDone
+		deadline := time.Now().Add(5 * time.Second)
+		for {
+			cur, sample := mocrelayGoroutines()
+			if cur <= base {
+				break
+			}
+			if time.Now().After(deadline) {
+				hx.Fail(t, ev.Failure{Property: "C13", Signature: "goroutine-leak", Clause: "every goroutine the session started has exited (inbound close, surrounding context still alive)", Case: desc,
+					Observed: fmt.Sprintf("%d goroutines with a mocrelay frame, baseline %d; one of them: %s", cur, base, firstLines(sample, 14))})
+			}
+			time.Sleep(2 * time.Millisecond)
+		}
+		if s, c := router.VerifSubscriptionCount(); s != 0 || c != 0 {
+			hx.Fail(t, ev.Failure{Property: "C13", Signature: "router-registry-leak", Clause: "the session's live subscriptions are gone from the router", Case: desc, Observed: fmt.Sprintf("%d subscriptions / %d connections left", s, c)})
+		}
+		col.Label("router-inbound-close")
+		col.Case(true, hx.JSON(desc), func() any { return desc })
+	})
+}
+
+// TestC13SQLiteBlockedInserter: the bulk inserter is stuck behind a foreign write
+// lock, the session's queue fills up, the session is cancelled: it must return
+// promptly although the handler (and its inserter) stay alive.
+func TestC13SQLiteBlockedInserter(t *testing.T) {
+	col := ev.For("C13").SetRule(c13Rule)
+	rapid.Check(t, func(t *rapid.T) {
+		dir, err := os.MkdirTemp("", "verif-c13-")
+		if err != nil {
+			t.Fatalf("tempdir: %v", err)
+		}
+		defer os.RemoveAll(dir)
+		dsn := "file:" + dir + "/relay.db?_busy_timeout=200"
+		db, err := sql.Open("sqlite3", dsn)
+		if err != nil {
+			t.Fatalf("open: %v", err)
+		}
+		defer db.Close()
+		bulk := rapid.IntRange(1, 2).Draw(t, "bulk")
+		hctx, hcancel := context.WithCancel(context.Background())
+		defer hcancel()
+		opt := mocsqlite.NewDefaultSQLiteHandlerOption()
+		opt.EventBulkInsertNum = bulk
+		opt.EventBulkInsertDur = 0
+		h, err := mocsqlite.NewSQLiteHandler(hctx, db, opt)
+		if err != nil {
+			t.Fatalf("handler: %v", err)
+		}
+		// a second connection takes the write lock and keeps it
+		locker, err := sql.Open("sqlite3", dsn)
+		if err != nil {
+			t.Fatalf("open locker: %v", err)
+		}
+		defer locker.Close()
+		conn, err := locker.Conn(context.Background())
+		if err != nil {
+			t.Fatalf("conn: %v", err)
+		}
+		defer conn.Close()
+		if _, err := conn.ExecContext(context.Background(), "BEGIN IMMEDIATE"); err != nil {
+			t.Fatalf("begin immediate: %v", err)
+		}
+		defer conn.ExecContext(context.Background(), "ROLLBACK")
+		desc := map[string]any{"composition": "sqlite", "bulk_insert_num": bulk, "fault": "the database write lock is held by another connection, the bulk inserter cannot make progress", "ending": "cancel-draining"}
+		ctx, cancel := context.WithCancel(context.Background())
+		defer cancel()
+		recv := make(chan mocrelay.ClientMsg)
+		send := make(chan mocrelay.ServerMsg)
+		ret := make(chan error, 1)
+		go func() { ret <- h.ServeNostr(ctx, send, recv) }()
+		stop := make(chan struct{})
+		go func() {
+			for {
+				select {
+				case <-send:
+				case <-stop:
+					return
+				}
+			}
+		}()
+		defer close(stop)
+		// more events than the queue holds (capacity 2 x bulk): the session ends up blocked
+		n := 2*bulk + 2 + rapid.IntRange(0, 3).Draw(t, "extra")
+		blocked := false
+		for i := 0; i < n && !blocked; i++ {
+			e := &mocrelay.Event{Pubkey: gen.Keys[0].Pub, Kind: 1, CreatedAt: int64(i + 1), Tags: []mocrelay.Tag{}, Content: fmt.Sprint(i)}
+			gen.Seal(e)
+			select {
+			case recv <- &mocrelay.ClientEventMsg{Event: e}:
+			case <-time.After(100 * time.Millisecond):
+				blocked = true
+			}
+		}
+		time.Sleep(20 * time.Millisecond)
+		t0 := time.Now()
+		cancel()
+		select {
+		case <-ret:
+		case <-time.After(3 * time.Second):
+			hx.Fail(t, ev.Failure{Property: "C13", Signature: "serve-does-not-return", Clause: "whenever a session's context is cancelled, at any point of any message history, serving returns promptly (SQLite handler whose inserter is stuck)", Case: desc, Observed: "not returned 3 s after cancel"})
+		}
+		col.Add("sqlite_blocked_return_us_sum", time.Since(t0).Microseconds())
+		col.Label("sqlite-blocked-inserter")
+		col.Case(true, hx.JSON(desc), func() any { return desc })
+	})
+}
